@@ -22,7 +22,7 @@ if not (suite_ok and demo_ok):
     print("NOT CONFIRMED (suite_ok=%s demo_ok=%s) — not kept" % (suite_ok, demo_ok)); sys.exit(1)
 dst = "/verif/seeded/%s-%s%s" % (P, os.environ.get("SEEDTAG", ""), k)
 os.makedirs(dst, exist_ok=True)
-shutil.copy(src + "/patch.diff", dst + "/patch.diff")
+shutil.copy(src + ("/patch.rebased.diff" if os.path.exists(src + "/patch.rebased.diff") else "/patch.diff"), dst + "/patch.diff")
 shutil.copy(src + "/demo_test.go", dst + "/demo_test.go")
 head = subprocess.run(["git", "-C", "/repo", "log", "--format=%h", "-1"], capture_output=True, text=True).stdout.strip()
 keep = {
